@@ -84,7 +84,7 @@ func init() {
 
 func (p *c12) ID() string { return "C12" }
 func (p *c12) Rule() string {
-	return "enumerated part: every entry point (Load().Render and RenderFile with no layout / default layouts/base.vuego / explicit layout / 2-link layout chain, RenderString, RenderByte, RenderReader, Render without Load) x catalogue of succeeding programs (empty, text only, loops, include+slots, every serialiser branch, full document; thorough adds large loops) and failing programs (unknown filter, filter error, function error, unknown function placed early/late/in attribute/v-text/v-html/loop/nested loop/include/nested include/default slot/named slot/layout; unmet :required, missing include, bad front-matter, bad v-for, missing file, missing layout, cyclic layouts, no filesystem, failing io.Reader, function cancelling the context mid-evaluation) x context (live, cancelled before the call, deadline passed before the call) x for every program that returns nil: six writer behaviours (failing Write accepts a prefix / nothing / everything; failure sticky / once) x EVERY failure offset 0..len(document) (quick tier, accept nothing/everything: one offset per Write call observed in the healthy run, which is every distinguishable offset); random part: seeded programs composed from the block pool with a random fault and writers with 1-3 scheduled failures; non-trivial = the case behaved as catalogued and the fault was really injected (writer reported >= 1 failure and all offsets ran; or the render returned an error; or the context was dead on entry); distinct by (entry, layout, program, context, writer mode)"
+	return "enumerated part: every entry point (Load().Render and RenderFile with no layout / default layouts/base.vuego / explicit layout / 2-link layout chain, RenderString, RenderByte, RenderReader, Render without Load) x catalogue of succeeding programs (empty, text only, loops, include+slots, every serialiser branch, full document; thorough adds large loops) and failing programs (unknown filter, filter error, function error, unknown function placed early/late/in attribute/v-text/v-html/loop/nested loop/include/nested include/default slot/named slot/layout; unmet :required, missing include, bad front-matter, bad v-for, missing file, missing layout, cyclic layouts, no filesystem, failing io.Reader, function cancelling the context mid-evaluation) x context (live, cancelled before the call, deadline passed before the call) x for every program that returns nil: six writer behaviours (failing Write accepts a prefix / nothing / everything; failure sticky / once), each as a plain io.Writer and as a writer that also implements io.StringWriter, x EVERY failure offset 0..len(document) (quick tier, accept nothing/everything: one offset per Write call observed in the healthy run, which is every distinguishable offset); random part: seeded programs composed from the block pool with a random fault and writers with 1-3 scheduled failures; non-trivial = the case behaved as catalogued and the fault was really injected (writer reported >= 1 failure and all offsets ran; or the render returned an error; or the context was dead on entry); distinct by (entry, layout, program, context, writer mode)"
 }
 
 // ---------------------------------------------------------------------------
@@ -620,6 +620,11 @@ func (w *c12Writer) Write(p []byte) (int, error) {
 	return len(p), nil
 }
 
+// c12StringWriter is the same destination with a WriteString method of its own.
+type c12StringWriter struct{ *c12Writer }
+
+func (w c12StringWriter) WriteString(s string) (int, error) { return w.c12Writer.Write([]byte(s)) }
+
 func (w *c12Writer) logString() string {
 	var b strings.Builder
 	for i, e := range w.log {
@@ -1033,6 +1038,12 @@ func (p *c12) exec(ctx core.Ctx, c c12Case) core.Obs {
 		wit := c
 		wit.Offsets = []int{k}
 		judge("live", w, res, fmt.Sprintf("writer failing at offset %d of %d (%s)", k, L, c.WMode), wit)
+		// the same failing destination, this time one that also implements io.StringWriter
+		// (*os.File, *bufio.Writer, an http.ResponseWriter do): its failures count as well
+		ws := &c12Writer{sched: []c12Fail{{At: k, Accept: accept}}, sticky: sticky}
+		res = c12Do(c, "live", c12StringWriter{ws})
+		o.Evals++
+		judge("live", ws, res, fmt.Sprintf("writer (with WriteString) failing at offset %d of %d (%s)", k, L, c.WMode), wit)
 		if len(o.Viol) > 8 {
 			o.Viol = c12Dedup(o.Viol)
 		}
